@@ -4,7 +4,7 @@ PROP = dict(
         dict(driver="tree", quick=900, thorough=20000, shard=60,
              monitors=["links_symmetric_ids_unique", "wellformed_at_stage_boundaries", "dedupe_unique",
                        "dedupe_keeps_urls", "complete_iff_no_pending"]),
-        dict(driver="treex", quick=12696, thorough=602520, shard=800,
+        dict(driver="treex", quick=12696, thorough=602520, shard=800, search_mult=3,
              monitors=["links_symmetric_ids_unique", "wellformed_at_stage_boundaries", "dedupe_unique",
                        "dedupe_keeps_urls", "complete_iff_no_pending"]),
     ],
